@@ -32,8 +32,14 @@ try:
         prop = meta['breaks_property']
         rc, out = st.run_check(prop, root)
         fired = rc == 1 and ('VIOLATION property=%s' % prop) in out
-        ok_all &= fired
         first = [l for l in out.splitlines() if l.startswith('  violation:')]
+        if meta.get('not_decided'):
+            # a change the static rules do not decide, kept with its reason: must stay silent (not half-caught by accident)
+            print('%-45s %s %s' % (sid, prop, 'not decided (documented)' if rc == 0 else 'now reported rc=%d: update meta.json' % rc))
+            results.append({'seed': sid, 'property': prop, 'caught': fired, 'not_decided': True})
+            shutil.rmtree(root, ignore_errors=True)
+            continue
+        ok_all &= fired
         print('%-45s %s %s' % (sid, prop, 'caught' if fired else 'MISSED rc=%d' % rc))
         if first:
             print('      ' + first[0][:200])
